@@ -42,8 +42,17 @@ CHECKS = {
     "C14": {"level": "exploration", "technique": "deterministic simulation of four process images over one scratch ruleset plus a quit/restart history in which the flags survive only in the save file; restriction oracle from the reference model",
             "text": "Default, --skip_brute, --all_lower and both are run as whole process images over the same ruleset (Markov structure first/middle/last/absent/alone); the restricted streams are compared with the reference restriction (rescaled probabilities, order, guesses), and a flagged session is quit at a drawn pop and resumed with --load and no flags in a new process image, judged by RefResume.",
             "note": _TB + "; order among (approximately) equal probabilities is not compared"},
+    "C10": {"level": "exploration", "technique": "deterministic simulation of generator-operation histories over one shared memo table (stateful cache), cache-size knob per run, RefOmen as reference model",
+            "text": "The real MarkovCracker/GuessStructure/Optimizer over synthetic and trainer-written models: each level with a fresh cache against RefOmen, then a drawn history of interleaved/suspended/repeated generators sharing one Optimizer whose size is drawn from 0..6; every generator's multiset must equal the reference regardless of what the cache held.",
+            "note": _TB + "; levels above 20000 strings are skipped"},
+    "C11": {"level": "exploration", "technique": "seeded multi-party simulation over one scratch disk: trainer (live model), scorer (loaded from disk) and guesser (enumerating generator) evaluated on the same candidates",
+            "text": "The real trainer writes a ruleset; the live trainer model, the scorer's own OMEN loader and the guesser's loader+generator are run on the same disk in one replayable process and must give every candidate string the same level (or all refuse); the per-level count file must equal the tally.",
+            "note": _TB + "; no schedule or fault enters this property (DESIGN §2, fit W); guesser enumeration bounded to 15000 strings per ruleset"},
+    "C18": {"level": "exploration", "technique": "seeded multi-party simulation over one scratch disk: trainer-written keyspace/probability files against the guesser's generator and RefOmen",
+            "text": "For every level the trainer lists (within the enumeration cap) the saved keyspace must equal the number of distinct strings the real generator emits and the reference count, and the saved level probability must equal (passwords at level / N) / keyspace.",
+            "note": _TB + "; no schedule or fault enters this property (fit W); levels above 8000 strings are skipped"},
 }
 
 _PENDING = "check not built yet in this round (planned: DESIGN.md §6); not claimed until its evidence exists"
 NOT_APPLICABLE = {p: _PENDING for p in
-                  ["C03", "C05", "C06", "C07", "C10", "C11", "C13", "C16", "C17", "C18", "C19", "C20"]}
+                  ["C03", "C05", "C06", "C07", "C13", "C16", "C17", "C19", "C20"]}
